@@ -13,7 +13,7 @@ RULE = ("molecules = corpus components (quick 120, thorough 2500) + a family bui
         "least one positive group; distinct = distinct (molecule, atom).")
 ASSUMPTIONS = ["RDKit's substructure search (query = the pattern molecule) is the reference for 'real occurrence with the same elements and bond types'"]
 TRUSTED = ["RDKit graph extraction (GetNeighbors order, GetBondType) and GetSubstructMatches"]
-HDR = ("From Coq Require Import String List Bool Arith.\nFrom SynRBL Require Import Model.FGMatch Gen.GenFG.\nImport ListNotations.\nOpen Scope string_scope.\n")
+HDR = ("From Coq Require Import String List Bool Arith.\nFrom SynRBL Require Import Model.FGMatch Proofs.FGComplete Gen.GenFG.\nImport ListNotations.\nOpen Scope string_scope.\n")
 DEFS = """
 Fixpoint beq (a b : list bool) : bool := match a, b with [], [] => true | x :: a', y :: b' => Bool.eqb x y && beq a' b' | _, _ => false end.
 Definition fgbits (G : graph) (idxs : list nat) : list bool :=
@@ -21,7 +21,9 @@ Definition fgbits (G : graph) (idxs : list nat) : list bool :=
 Definition structures : list graph :=
   flat_map (fun c => (map fst (fg_patterns (snd c)) ++ map snd (fg_patterns (snd c)) ++ fg_anti (snd c))%list) fg_configs.
 Definition pmbits (G : graph) (idxs : list nat) : list bool := flat_map (fun i => map (fun P => pattern_match G P i) structures) idxs.
-Definition fcase (G : graph) (idxs : list nat) (e1 e2 : list bool) : bool := beq (fgbits G idxs) e1 && beq (pmbits G idxs) e2.
+(* gwfb: the molecule graph handed over by the translator is well-formed (symmetric bonds, every bond in the neighbour lists) -- the
+   hypothesis of C16_every_occurrence_is_recognised *)
+Definition fcase (G : graph) (idxs : list nat) (e1 e2 : list bool) : bool := beq (fgbits G idxs) e1 && beq (pmbits G idxs) e2 && gwfb G.
 """
 FAMILY = ["O[c+]1cccccc1", "C1OCO1", "CC(CCCc1ccccc1)c1cc2nc(O)c3c(c2cc1O)CCCC3", "Oc1ccccc1", "COc1ccccc1", "OC1CCCCC1", "CC(=O)OC(C)=O", "COC(=O)OC", "CC(=O)OO", "OCO", "COCOC", "COCO",
           "C1COCO1", "C1OCOCO1", "O=C1OCCO1", "CC(=O)N", "NC(=O)O", "NC(N)=O", "CC(=O)SC", "CC(O)=S", "C=CO", "CC(C)=O", "CC=O", "CC#N", "CN", "Nc1ccccc1",
